@@ -292,14 +292,19 @@ def heap_aimed_cases(ctx, exes, rng, n_candidates, per_class):
         cands.append(add_landmarks(rng, c))
     evs = model_events(ctx, exes, cands)
     chosen, seen = [], set()
+    families = sorted({c["gen"] for c in cands})
     for cls in (2, 4, 5, 3):
-        ranked = sorted(range(len(cands)), key=lambda i: -evs[i][cls])
-        for i in ranked[:per_class]:
-            if evs[i][cls] > 0 and i not in seen:
-                seen.add(i)
-                cands[i]["gen"] = "heap-aimed(" + cands[i]["gen"] + ")"
-                cands[i]["_events"] = evs[i]
-                chosen.append(cands[i])
+        for fam in families:              # the richest graphs of EVERY family, not only of the richest family
+            ranked = sorted((i for i in range(len(cands)) if cands[i]["gen"] == fam and i not in seen),
+                            key=lambda i: -evs[i][cls])
+            for i in ranked[:max(1, per_class // len(families))]:
+                if evs[i][cls] > 0:
+                    seen.add(i)
+                    chosen.append(i)
+    for i in chosen:
+        cands[i]["_events"] = evs[i]
+        cands[i]["gen"] = "heap-aimed(" + cands[i]["gen"] + ")"
+    chosen = [cands[i] for i in chosen]
     return chosen, len(cands)
 
 
